@@ -191,7 +191,8 @@ def run(ctx):
             break
         if r.returncode == 0:
             raise vlib.MachineryError('driver answered %d of %d scenarios (rc=0): %s' % (len(got), len(todo), r.stderr[-800:]))
-        aborted.append((todo[len(got)], r.returncode, r.stderr[-600:]))
+        why = re.findall(r'assertion failed[^\n]*|ERROR: AddressSanitizer[^\n]*|runtime error[^\n]*', r.stderr + r.stdout)
+        aborted.append((todo[len(got)], r.returncode, (why[-1] if why else r.stderr[-300:]).strip()))
         todo = todo[len(got) + 1:]
     for si, rc, err in aborted[:3]:
         died = scen[si]
